@@ -98,8 +98,11 @@ def cia301_bytes(dt, v):
     return bytes(v["bytes"])
 
 
+SLOW_DELAY, SLOW_TIMEOUT = 0.4, 6.0
+
+
 class Bus:
-    """One of three delivery modes."""
+    """One of four delivery modes."""
     def __init__(self, mode, seed):
         import canopen
         self.mode, self.frames = mode, []
@@ -117,7 +120,7 @@ class Bus:
 
         if mode == "inline":
             self.net_l = self.net_r = Inline()
-        elif mode == "thread":
+        elif mode in ("thread", "slow"):
             self.q = queue.Queue()
             self.net_l = self.net_r = Deferred()
             self.stop = False
@@ -126,6 +129,13 @@ class Bus:
                     try:
                         can_id, data = self.q.get(timeout=0.01)
                     except queue.Empty:
+                        continue
+                    if mode == "slow":
+                        # a slow device: every response takes longer than the library's DEFAULT response time-out
+                        # (0.3 s) but far less than the time-out the application configured on the client
+                        if can_id & 0x780 == 0x580:
+                            time.sleep(SLOW_DELAY)
+                        self.net_l.notify(can_id, bytearray(data), 0.0)
                         continue
                     if rng.random() < 0.5:
                         time.sleep(rng.random() * 0.001)
@@ -146,7 +156,7 @@ class Bus:
             self.net_r.connect(interface="virtual", channel=ch, receive_own_messages=False)
 
     def close(self):
-        if self.mode == "thread":
+        if self.mode in ("thread", "slow"):
             self.stop = True
             self.th.join()
         elif self.mode == "vbus":
@@ -164,7 +174,8 @@ def setup(mode, seed, node_ids):
         rem = canopen.RemoteNode(nid, od)
         loc.associate_network(bus.net_l)
         rem.associate_network(bus.net_r)
-        rem.sdo.RESPONSE_TIMEOUT = 1.0
+        # the application's own setting of the documented attribute (the class default is 0.3 s)
+        rem.sdo.RESPONSE_TIMEOUT = SLOW_TIMEOUT if mode == "slow" else 1.0
         pairs.append((loc, rem))
     return bus, pairs
 
@@ -393,6 +404,16 @@ def gen_cases(rng, tier):
             allv = list(range(lo, hi + 1))
             for k in range(0, len(allv), 4096):
                 cases.append(dict(kind="rt", mode="inline", items=[["index", dt, v] for v in allv[k:k + 4096]], model=False))
+    # a slow device and a client whose response time-out the application raised accordingly
+    for rep in range({"quick": 1, "thorough": 3, "search": 2}[tier]):
+        dts = rng.sample(list(NUMERIC), 2) + [rng.choice([VISIBLE, OCTET, DOMAIN])]
+        items = []
+        for dt in dts:
+            v = rand_value(rng, dt)
+            if isinstance(v, dict):        # keep it to a few segments: every response costs SLOW_DELAY
+                v = {k: x[:9] for k, x in v.items()}
+            items.append([rng.choice(["index", "name"]), dt, v])
+        cases.append(dict(kind="rt", mode="slow", seed=rng.randrange(10 ** 6), items=items, model=False, trace=False))
     # concurrency
     for mode in ("thread", "vbus"):
         for n in ((1, 2, 8) if tier == "quick" else (1, 2, 3, 4, 5, 6, 7, 8)):
